@@ -1,8 +1,9 @@
-CONSTANT Families = {"basis", "sweep", "masks", "zerow", "general", "tset"}
+CONSTANT Families = {"basis", "sweep", "masks", "zerow", "general", "history", "tset"}
 CONSTANT Dens = {1, 2, 3, 4}
 CONSTANT CoefSel = "small"
 CONSTANT XIds = {1, 3}
 CONSTANT ZIds = {1}
+CONSTANT HIds = {1}
 CONSTANT Lays = {2, 3}
 CONSTANT Mod = 9
 CONSTANT TsMod = 9
@@ -24,6 +25,7 @@ INVARIANT C13_SolveAgreesOnExact
 INVARIANT C13_WellPosedIsSolvable
 INVARIANT C13_ZeroWeightNoInfluence
 INVARIANT C13_NoBetterNeighbour
+INVARIANT C13_HistoryPerCall
 INVARIANT C13_TsetExact
 INVARIANT C13_TsetWLS
 INVARIANT C13_FitThenEvaluate
